@@ -41,7 +41,7 @@ import pyref as R  # noqa: E402
 
 INTERNAL_SKS = (3, 11, R.b2i(hashlib.sha256(b"C06/internal/1").digest()) % R.N_ORDER)   # 11: odd-Y point (negated in the seckey tweak)
 PREFIXES = ((None, "bcrt"), ("--addrprefix=tb", "tb"), ("-pbc", "bc"), ("--addrprefix=bcrt", "bcrt"))
-SWEEP_PATTERNS = ("distinct", "equal", "alt", "spelled", "emptyleaf")   # spelled: leaves given as bracketed text with an inline function (same bytes as their hex form); emptyleaf: leaf 0 is the empty script
+SWEEP_PATTERNS = ("distinct", "equal", "alt", "spelled", "emptyleaf", "zeroprefix")   # zeroprefix: sibling leaf hashes that both start with a zero byte, in both orders   # spelled: leaves given as bracketed text with an inline function (same bytes as their hex form); emptyleaf: leaf 0 is the empty script
 RT_PATTERNS = ("csig", "csigarg")             # leaves <pk_i> OP_CHECKSIG  /  OP_DROP <pk_i> OP_CHECKSIG with one spend argument
 PLACEHOLDER = bytes(range(16)) * 4
 SPEND_ARG = "0x2a"
@@ -94,6 +94,28 @@ def _alt_list(nmax):
     return tuple(out)
 
 
+@functools.lru_cache(maxsize=None)
+def _zero_list(nmax):
+    """leaves <4-byte nonce> OP_2DROP OP_1 whose TapLeaf hash starts with 0x00 (ground), paired like _alt_list: within a pair the hashes share
+    the zero first byte and differ later - even pairs ascending, odd pairs descending (so BIP341 has to swap them)"""
+    found = []
+    nonce = 0
+    while len(found) < nmax:
+        sc = bytes([4]) + nonce.to_bytes(4, "little") + bytes([0x6D, 0x51])
+        if R.tapleaf_hash(sc)[0] == 0:
+            found.append(sc)
+        nonce += 1
+    out = []
+    for k in range(0, nmax - 1, 2):
+        a, b = found[k], found[k + 1]
+        if R.tapleaf_hash(b) < R.tapleaf_hash(a):
+            a, b = b, a
+        if (k // 2) & 1 == 0:
+            a, b = b, a              # first pair: left leaf hash above its sibling (a swap is needed)
+        out += [a, b]
+    return tuple(out)
+
+
 def _prog20(i):
     return hashlib.sha256(b"C06/prog/%d" % i).digest()[:20]
 
@@ -121,6 +143,8 @@ def scripts_for(pattern, n):
         return [bytes([20]) + _prog20(i) + bytes([0x6D, 0x51]) for i in range(n)]     # <20 bytes> OP_2DROP OP_1
     if pattern == "emptyleaf":
         return [b""] + [_s(i, 0x2000) for i in range(1, n)]       # the empty script is a legal leaf: it leaves the signature item as the (true) result
+    if pattern == "zeroprefix":
+        return list(_zero_list(16)[:n])
     if pattern == "csig":
         return [b"\x20" + leaf_pk(i) + b"\xac" for i in range(n)]
     if pattern == "csigarg":
@@ -134,9 +158,9 @@ def make_jobs(tier):
     for ki in range(len(INTERNAL_SKS)):
         for pi in range(len(PREFIXES)):
             for pat in SWEEP_PATTERNS:
-                for n in range(1, (min(b["N"], 8 if tier == "quick" else 16) if pat in ("spelled", "emptyleaf") else b["N"]) + 1):
+                for n in range(1, (min(b["N"], 8 if tier == "quick" else 16) if pat in ("spelled", "emptyleaf", "zeroprefix") else b["N"]) + 1):
                     jobs.append(dict(ki=ki, pattern=pat, n=n, pi=pi, indices=list(range(n))))
-                for n in (() if pat in ("spelled", "emptyleaf") else b["big"]):
+                for n in (() if pat in ("spelled", "emptyleaf", "zeroprefix") else b["big"]):
                     jobs.append(dict(ki=ki, pattern=pat, n=n, pi=pi, indices=big_indices(n)))
             for pat in RT_PATTERNS:
                 for n in b["rt"]:
